@@ -302,6 +302,26 @@ class Splicer:
                 g.raw("/*<+*/" + text + "/*+>*/")
             k += 1
 
+    def render(self, lo, hi):
+        """source text of toks[lo:hi) with the substitutions / insertions already registered inside it applied WITHOUT markers
+        (for a rule that re-renders an enclosing expression: the enclosing substitution keeps the original text)"""
+        out, k = "", lo
+        while k < hi:
+            for text in self.ins_before.get(k, []):
+                out += text
+            if k in self.subs and self.subs[k][0] <= hi:
+                h, new, rule = self.subs[k]
+                out += new
+                for text in self.ins_after.get(h - 1, []):
+                    out += text
+                k = h
+                continue
+            out += self.toks[k].text
+            for text in self.ins_after.get(k, []):
+                out += text
+            k += 1
+        return out
+
     def text21(self, lo, hi):
         """source text of toks[lo:hi) with the R21 substitutions inside it applied (for rules that re-render a statement)"""
         out, k = "", lo
@@ -741,7 +761,7 @@ class Splicer:
                     if len(cl_) == 1:
                         c_ = cl_[0]
                         params = rs.text_of(toks, c_["params_lo"] + 1, c_["params_hi"] - 1).strip()
-                        body = rs.text_of(toks, c_["body_lo"], c_["body_hi"]).strip()
+                        body = self.render(c_["body_lo"], c_["body_hi"]).strip()   # closure specs of inner closures included
                         recv_lo = amp + 1 if amp is not None else tail[0]
                         recv = rs.text_of(toks, recv_lo, dot).strip()
                         guard = ""
@@ -1339,7 +1359,7 @@ def main():
     g.raw("// GENERATED by tools/splice.py from %s -- do not edit\n" % a.repo)
     g.raw("#![allow(unused_imports, dead_code, unused_variables, unused_mut, unused_unsafe, unreachable_code, non_snake_case)]\n")
     g.raw("use vstd::prelude::*;\nuse vstd::multiset::Multiset;\nuse core::mem;\nuse core::iter::FusedIterator;\n"
-          "use core::hash::{BuildHasher, Hash};\nuse core::borrow::Borrow;\nuse core::marker::PhantomData;\n")
+          "use core::hash::{BuildHasher, Hash};\nuse core::borrow::Borrow;\nuse core::marker::PhantomData;\nuse vstd::std_specs::cmp::PartialEqSpec;\n")
     g.raw("\n//@section model\n")
     g.raw(open(os.path.join(a.verif, "model", "hashbrown_0_14_5.rs")).read())
     g.raw(open(os.path.join(a.verif, "model", "lawfulness.rs")).read())
